@@ -162,8 +162,14 @@ class Verifier(object):
                 rep.reason += "\n" + traceback.format_exc(limit=-12)
         except RecursionError:
             rep.status, rep.reason = "out_of_subset", "recursion limit in the symbolic executor"
+        except z3.Z3Exception as e:
+            # a term of the wrong sort reached a typed model (e.g. an int stored where the code used to store a bool):
+            # the code is outside what the models can express - undecided, never a verdict and not a checker crash
+            rep.status, rep.reason = "out_of_subset", "ill-sorted term in a typed model: %s" % (str(e)[:200],)
+            if os.environ.get("VERIF_DEBUG"):
+                rep.reason += "\n" + traceback.format_exc(limit=-12)
         except Exception as e:   # engine bug: never a verdict
-            rep.status, rep.reason = "error", "%s: %s\n%s" % (type(e).__name__, e, traceback.format_exc(limit=8))
+            rep.status, rep.reason = "error", "%s: %s\n%s" % (type(e).__name__, e, traceback.format_exc(limit=-10))
         return rep
 
     def make_args(self, m, c, node, module, case):
